@@ -84,6 +84,10 @@ T = [
     ("no domain for a head element whose variable is also a local variable of a body aggregate", "C20", ["symmetry", "minmax_chains", "sum_chains"], "1 >= { p(G,V): d(W,V) } :- g(G); 1 <= #count { W: d(G,W) }.\n:~ p(G,V). [V@1,G]\n", [["d", 2], ["g", 1]], [["p", 2]], [["d(5,5)", "d(2,2)", "d(5,1)", "g(1)", "g(-1)", "g(5)", "g(2)"]], None, ["c20"], {}),
     ("RuleDependency counts occurrences in rule heads that derive nothing as uses", "C15", ["inline"], "{ sel(A,Y) } :- p(A,Y).\nh(A,S) :- a(A); S = #min { Y: sel(A,Y) }.\nnot h(A,S) :- c(A,S).\nlow(V) :- h(V,S); S < C; C = #count { W: t(V,W) }.\n", [["a", 1], ["c", 2], ["p", 2], ["t", 2]], [["low", 1], ["sel", 2]], [["a(a)", "c(a,9)", "p(a,9)", "t(a,7)"]], SET, ["equiv"], {}),
     ("RuleDependency counts occurrences in rule heads that derive nothing as uses", "C15", ["inline"], "{ sel(A,Y) } :- p(A,Y).\nh(A,S) :- a(A); S = #sum { Y: sel(A,Y) }.\nfoo(X) :- X = #sum { S,V: h(V,S) }.\n{ x(A): h(A,S), S > 1 } :- a(A).\n", [["a", 1], ["p", 2]], [["foo", 1], ["sel", 2], ["x", 1]], [["a(1)", "p(1,2)", "p(1,3)"]], SET, ["equiv"], {}),
+    ("inline pads the tuples of every further unfolded objective beyond the ones created before", "C02", ["inline"], "{ p(X,W) } :- pp(X,W).\n{ q(X,W) } :- qq(X,W).\n:~ C = #sum { W,X : p(X,W) }. [C@1]\n:~ d(Y), C = #sum { W : q(Y,W) }. [C@1,Y]\n", [["pp", 2], ["qq", 2], ["d", 1]], [["p", 2], ["q", 2]], [["pp(1,5)", "qq(1,5)", "d(1)"]], {"kind": "set", "voc": "out", "cost": True}, ["equiv"], {}),
+    ("sum_chains needs the group variables as such in the tuple, not inside arithmetic", "C13", ["sum_chains"], "{ p(G,V) : d(G,V) } 1 :- g(G).\nt(X) :- X = #sum { V,G/2 : p(G,V) }.\n", [["d", 2], ["g", 1]], [["p", 2], ["t", 1]], [["d(2,5)", "d(3,5)", "g(2)", "g(3)"]], BIJ, ["equiv"], {}),
+    ("sum_chains needs the group variables as such in the tuple, not inside arithmetic", "C13", ["sum_chains"], "{ p(G,V) : d(G,V) } 1 :- g(G).\n:~ p(G,V). [V@1,G/2]\n", [["d", 2], ["g", 1]], [["p", 2]], [["d(2,5)", "d(3,5)", "g(2)", "g(3)"]], {"kind": "set", "voc": "out", "cost": True}, ["equiv"], {}),
+    ("sum_chains leaves an element alone whose weight variable is bound outside of the aggregate", "C13", ["sum_chains"], "{ p(G,V) : d(G,V) } 1 :- g(G).\nt(X) :- X = #sum { V,G : p(G,V) }, q(V).\n", [["d", 2], ["g", 1], ["q", 1]], [["p", 2], ["t", 1]], [["d(1,5)", "d(2,5)", "d(1,3)", "g(1)", "g(2)", "q(5)"]], BIJ, ["equiv"], {}),
 ]
 
 
